@@ -84,6 +84,78 @@ impl PulledMessage {
 //@end
 
 // ======================================================================================
+// src/api/subscriber.rs: the unary Pull path between the gRPC request and the subscription handle
+//   request.max_messages  --(`as u16`, region of `pull`)-->  helper `pull_messages`  -->  handle  -->  actor (bundle B1)
+//@include prelude/status.rs
+//@item src/subscriptions/errors.rs enum PullMessagesError drop-derive=thiserror::Error strip-attr=error
+pub mod pull_glue {
+    use super::*;
+    /// the messages one `Subscription::pull_messages(max)` call on the handle hands out (decided by the actor)
+    pub uninterp spec fn handed_out(s: PullHandle, max: u16, p: Seq<PulledMessage>) -> bool;
+}
+pub use pull_glue::handed_out;
+/// the count clause of the actor's `pull_messages` contract that concerns the limit (proved in bundle B1 as part of
+/// `count_ok`): at most `max` messages, at most one when the 16-bit limit is 0
+pub open spec fn limit_ok(n: int, max: u16) -> bool { n <= (if max == 0 { 1 } else { max as int }) }
+/// TRUSTED (A-GLUE): stand-in for the `Subscription` handle: `pull_messages` forwards the request to the actor over
+/// its mailbox and returns the actor's reply; the reply satisfies the count clause proved for
+/// `SubscriptionActor::pull_messages` in bundle B1
+pub struct PullHandle { pub x: u64 }
+impl PullHandle {
+    #[verifier::external_body]
+    pub async fn pull_messages(&self, max_count: u16) -> (r: Result<Vec<PulledMessage>, PullMessagesError>)
+        ensures (match r { Ok(v) => handed_out(*self, max_count, v@) && limit_ok(v@.len() as int, max_count), Err(_) => true })
+    { unimplemented!() }
+}
+pub mod subscriptions { pub use super::PullHandle as Subscription; }
+/// C09: one delivery as it leaves the server carries what the lease holds (the clauses of map_to_received_message)
+pub open spec fn recv_ok(m: PulledMessage, r: ReceivedMessage) -> bool {
+    &&& r.message.is_some()
+    &&& r.message.unwrap().data@ == m.msg().data@
+    &&& r.message.unwrap().attributes@ == attrs_of(*m.msg())
+    &&& r.message.unwrap().message_id@ == display_u64(m.msg().id.value)
+    &&& r.message.unwrap().publish_time == Some(ts_of(m.msg().published_at))
+    &&& r.ack_id@ == display_u64(m.id().val())
+}
+//@fn src/api/subscriber.rs conflict tags=C15
+//@ ret r
+//@ ensures r.code == Code::FailedPrecondition
+//@end
+//@fn src/api/subscriber.rs pull_messages tags=C15 keep-paths=1
+//@ ret r
+//@ # C15: the helper returns one ReceivedMessage per message the subscription handed out - never more than the limit
+//@ ensures[C15] (match r { Ok(v) => limit_ok(v@.len() as int, max_messages), Err(_) => true })
+//@ # C09: ... and each of them carries the content and ids of the lease at the same position
+//@ ensures[C09] (match r { Ok(v) => exists|p: Seq<PulledMessage>| #[trigger] handed_out(*subscription, max_messages, p) && p.len() == v@.len() && forall|i: int| 0 <= i < p.len() ==> recv_ok(p[i], v@[i]), Err(_) => true })
+//@ ensures[C15] (match r { Ok(_) => true, Err(e) => e.code == Code::FailedPrecondition })
+//@ closure 1 ret st: Status
+//@ closure 1 ensures st.code == Code::FailedPrecondition
+//@end
+pub struct PullRequest { pub subscription: String, pub return_immediately: bool, pub max_messages: i32 }
+//@fn src/api/subscriber.rs SubscriberService::pull tags=C15 name=pull_cast_region tail=Ok(received_messages)
+//@ region /^\s*let received_messages =\s*$/ /pull_messages\(.subscription, .*\)\.await\?;/ as async fn pull_cast_region(subscription: &PullHandle, request: &PullRequest) -> (r: Result<Vec<ReceivedMessage>, Status>)
+//@ # C15: a Pull with max_messages >= 1 returns at most max_messages messages, whatever the 16-bit truncation yields
+//@ ensures[C15] request.max_messages >= 1 ==> (match r { Ok(v) => v@.len() <= request.max_messages, Err(_) => true })
+//@ proof-start[C15] { lemma_cast_limit(request.max_messages); }
+//@end
+//@tags C15
+/// for m >= 1 the effective limit of `m as u16` (one message when that is 0) is at most m
+pub proof fn lemma_cast_limit(m: i32)
+    ensures m >= 1 ==> (if (m as u16) == 0 { 1 } else { (m as u16) as int }) <= m
+{
+    if m >= 1 {
+        let c = m as u16;
+        assert(m as u16 == (m as u32 % 0x1_0000) as u16) by (bit_vector);
+        if c != 0 {
+            assert(c as int <= m) by {
+                assert(m >= 1 ==> ((m as u32 % 0x1_0000) as u16) as int <= m as int) by (bit_vector);
+            }
+        }
+    }
+}
+//@tags
+
+// ======================================================================================
 // src/push/push_loop.rs: HTTP push payload (region of encode_message_payload up to the serde_json call)
 // TRUSTED (A-LIB): the four stock engines of the base64 crate; `b64` is the STANDARD alphabet with padding (the one
 // Pub/Sub's JSON push format uses), the other three are modelled as different, unconstrained encodings
